@@ -18,8 +18,31 @@ func GenTrace(property string, seed uint64, thorough bool) *Trace {
 	for i, n := range names {
 		weights[i] = p.Weights[n]
 	}
+	// the thousand-tables variant builds up without any mass removal and turns to batch operations at the very end
+	buildUp := p.Wide == "tables" && p.EntityCap >= 2600
+	late := make([]int, len(names))
+	for i, n := range names {
+		late[i] = weights[i]
+		switch n {
+		case "batch":
+			late[i] = 40
+			if buildUp {
+				weights[i] = 0
+			}
+		case "rm":
+			if buildUp {
+				weights[i] = 0
+			}
+		case "new", "setrel":
+			late[i] = 10
+		}
+	}
 	for i := 0; i < p.Steps; i++ {
-		st := Step{Op: names[sched.Pick(weights)]}
+		w := weights
+		if buildUp && i >= p.Steps-p.Steps/16 {
+			w = late
+		}
+		st := Step{Op: names[sched.Pick(w)]}
 		st.A = make([]uint32, 24)
 		for j := range st.A {
 			st.A[j] = ops.U32()
